@@ -245,6 +245,10 @@ fn triple_sweep(members: &[Member], sh: &util::Shard) -> Report {
                 rep.outcome(if ol.manifest.starts_with("V ") { "manifests" } else { "fails" });
                 rep.distinct(&(ol.structure.clone(), ol.manifest.starts_with("V "), ol.values.iter().map(|v| v.starts_with("V ")).collect::<Vec<_>>()));
                 let case = json!({"type":"triple","a":a,"b":bb,"c":c});
+                if let Some(pm) = [&ol.structure, &ol.manifest, &or.structure, &or.manifest].into_iter().chain(ol.values.iter()).chain(or.values.iter()).find(|x| x.starts_with("P ")) {
+                    rep.violation(format!("C07/panic/{}", util::panic_site(pm)), format!("A={a}, B={bb}, C={c}: {pm}"), case.clone());
+                    return rep;
+                }
                 if ol != or {
                     let which = if ol.structure != or.structure { "field-set" } else if ol.manifest != or.manifest { "manifest" } else { "field-value" };
                     rep.violation(format!("C07/associativity/{which}"), format!("(A+B)+C and A+(B+C) differ for A={a}, B={bb}, C={c}: {ol:?} vs {or:?}"), case.clone());
@@ -326,9 +330,13 @@ fn pair_laws(members: &[Member], sh: &util::Shard) -> Report {
             let src = format!(
                 "local o = {a}, r = {rem}; [std.objectFieldsAll(o), std.objectFieldsAll(r), std.objectFields(o), std.objectFields(r)]"
             );
-            let r = rt::run_on(&mut p, src.as_bytes(), &RunCfg::default()).outcome;
+            let r = match util::catch(|| rt::run_on(&mut p, src.as_bytes(), &RunCfg::default())) { Ok(r) => r.outcome, Err(m) => Outcome::Panic(m) };
             rep.evaluations += 1;
             rep.states += 1;
+            if let Outcome::Panic(m) = &r {
+                rep.violation(format!("C07/panic/{}", util::panic_site(m)), format!("{src}: {m}"), json!({"type":"remove","a":a,"k":k}));
+                return rep;
+            }
             if let Outcome::Value(s) = &r {
                 let v: serde_json::Value = serde_json::from_str(s).unwrap();
                 let strip = |x: &serde_json::Value| -> Vec<String> { x.as_array().unwrap().iter().map(|y| y.as_str().unwrap().to_string()).filter(|y| y != k).collect() };
@@ -349,8 +357,9 @@ fn pair_laws(members: &[Member], sh: &util::Shard) -> Report {
                     if f == k {
                         continue;
                     }
-                    let before = rt::run_on(&mut p, format!("({a}).{f}").as_bytes(), &RunCfg::default()).outcome.semantic();
-                    let after = rt::run_on(&mut p, format!("({rem}).{f}").as_bytes(), &RunCfg::default()).outcome.semantic();
+                    let sem = |p: &mut Program<'_>, src: String| match util::catch(|| rt::run_on(p, src.as_bytes(), &RunCfg::default())) { Ok(r) => r.outcome.semantic(), Err(m) => format!("P {m}") };
+                    let before = sem(&mut p, format!("({a}).{f}"));
+                    let after = sem(&mut p, format!("({rem}).{f}"));
                     rep.evaluations += 2;
                     if before != after {
                         rep.violation("C07/removeKey/other-field-changed", format!("field {f} of {a} is {before}, after removing {k} it is {after}"), json!({"type":"remove","a":a,"k":k,"f":f}));
@@ -362,9 +371,13 @@ fn pair_laws(members: &[Member], sh: &util::Shard) -> Report {
                 let q = &members[j].src;
                 for (lhs_plain, lhs_removed) in [(format!("({a}) + ({q})"), format!("({rem}) + ({q})")), (format!("({q}) + ({a})"), format!("({q}) + ({rem})"))] {
                     let src = format!("local x = {lhs_plain}, y = {lhs_removed}, q = {q}; [std.objectFieldsAll(x), std.objectFieldsAll(y), std.objectFieldsAll(q)]");
-                    let r = rt::run_on(&mut p, src.as_bytes(), &RunCfg::default()).outcome;
+                    let r = match util::catch(|| rt::run_on(&mut p, src.as_bytes(), &RunCfg::default())) { Ok(r) => r.outcome, Err(m) => Outcome::Panic(m) };
                     rep.evaluations += 1;
                     rep.transitions += 1;
+                    if let Outcome::Panic(m) = &r {
+                        rep.violation(format!("C07/panic/{}", util::panic_site(m)), format!("{src}: {m}"), json!({"type":"remove-ext","a":a,"k":k,"q":q}));
+                        return rep;
+                    }
                     if let Outcome::Value(s) = &r {
                         let v: serde_json::Value = serde_json::from_str(s).unwrap();
                         let full = |x: &serde_json::Value| -> Vec<String> { x.as_array().unwrap().iter().map(|y| y.as_str().unwrap().to_string()).collect() };
